@@ -11,6 +11,18 @@ from sa.xmlchemy_model import choice_prop
 from sa.xmlvalid import check_value
 
 
+
+def _preorder(fnode):
+    """id(node) -> position in a depth-first, source-order traversal of the function"""
+    out = {}
+
+    def go(n):
+        out[id(n)] = len(out)
+        for c in ast.iter_child_nodes(n):
+            go(c)
+    go(fnode)
+    return out
+
 def run(ctx, prog, S, M, T, hints):
     E = Effects(prog, S, M, T)
 
@@ -148,7 +160,12 @@ def run(ctx, prog, S, M, T, hints):
                                  and pr[1].count("/") == 2]
                 other = [pr for pr in probs if not (pr[0] == "attr-required" and pr[1].count("/") == 2)]
                 # later uses of var
-                later = [m for m in body_nodes if getattr(m, "lineno", 0) > n.lineno]
+                # what follows the attaching statement in program order (positions, not line numbers: generated code - a
+                # property factory specialised to one attribute - has all its statements on the line of the declaration)
+                order_ = _preorder(f.node)
+                pos_n = order_.get(id(n), -1)
+                inside_n = {id(x) for x in ast.walk(n)}
+                later = [m for m in body_nodes if order_.get(id(m), -1) > pos_n and id(m) not in inside_n]
                 stored = {}  # attribute name -> (node, constant?)
                 calls = []
                 escapes = False
